@@ -98,5 +98,9 @@ func (fs *FS) fromOSPath(
 	if fsPath == "" {
 		fsPath = "."
 	}
+	if !hackpadfs.ValidPath(fsPath) {
+		// e.g. empty, '.' or '..' elements: not the path of a file in this FS
+		return "", errInvalid
+	}
 	return fsPath, nil
 }
